@@ -19,9 +19,14 @@ type nodeHTML struct {
 func (n *nodeHTML) Execute(ctx *ExecutionContext, writer TemplateWriter) *Error {
 	res := n.token.Val
 	if n.template != nil && n.template.Options != nil {
-		if n.template.Options.TrimBlocks && n.afterBlock && len(res) > 0 && res[0] == '\n' {
-			// the first newline after a template tag is removed automatically (like in PHP)
-			res = res[1:]
+		if n.template.Options.TrimBlocks && n.afterBlock {
+			// the first newline after a template tag is removed automatically (like in
+			// PHP); the newline of a document with CR LF line ends is both characters
+			if strings.HasPrefix(res, "\r\n") {
+				res = res[2:]
+			} else if strings.HasPrefix(res, "\n") {
+				res = res[1:]
+			}
 		}
 		if n.template.Options.LStripBlocks && n.beforeBlock {
 			res = strings.TrimRight(res, "\t ")
